@@ -99,7 +99,7 @@ _RG_STRONG = ["rg_alloc", "rg_increment_strong_owner", "rg_increment_strong_prot
               "rg_is_not_destructed", "rg_decrement_strong_noguard", "rg_decrement_strong_guard", "rg_try_destruct"]
 _RG_WEAK = ["rg_increment_weak_owner", "rg_increment_weak_protected", "rg_decrement_weak_noguard", "rg_decrement_weak_guard",
             "rg_try_dealloc", "rg_dealloc_frees"]
-_DISP_CORE = ["dispose_chain_level", "dispose_null_edge_then_child", "dispose_leaf_any_depth", "dispose_null", "dispose_entry"]
+_DISP_CORE = ["dispose_chain_level", "dispose_null_edge_then_child", "dispose_recursion_depth_argument", "dispose_leaf_any_depth", "dispose_null", "dispose_entry"]
 _MODS_ALL = ["utils_state_h.rs", "utils_rg_h.rs", "utils_dispose_h.rs", "internal_cut_h.rs", "strong_h.rs", "weak_h.rs"]
 _FAST = ["--no-assertion-reach-checks", "--no-assert-contracts"]
 _L1_FUNCS = ["RcInner::{alloc,dealloc,increment_strong,is_not_destructed,decrement_strong,try_destruct,increment_weak,decrement_weak,try_dealloc}",
@@ -111,8 +111,8 @@ _STUTTER = ("CAS-retry loops (decrement_strong, is_not_destructed, try_destruct,
 PROPS["C01"] = dict(
     title="a strong reference keeps its object alive", level="proof",
     modules=_MODS_ALL, contract_groups=["state", "modular"],
-    kani=dict(quick=_h(_RGF, _RG_LEMMAS + _RG_STRONG) + _h("utils_dispose_h.rs", ["dispose_chain_level", "dispose_leaf_any_depth"])
-              + _h("strong_h.rs", ["l2_rc_ledger", "l2_rc_new_deref", "c08_compare_exchange", "c08_store", "c08_swap", "c08_take_drop_from", "c08_new", "c10_iter_next_drop_abort"])
+    kani=dict(quick=_h(_RGF, _RG_LEMMAS + _RG_STRONG + _RG_WEAK) + _h("utils_dispose_h.rs", ["dispose_chain_level", "dispose_leaf_any_depth"])
+              + _h("strong_h.rs", ["l2_rc_ledger", "l2_rc_new_deref", "c08_compare_exchange", "c08_store", "c08_swap", "c08_take_drop_from", "c08_new", "c10_iter_next_drop_abort", "c10_weak_many_3"])
               + _h("weak_h.rs", ["c05_weak_upgrade"])),
     kani_flags=_FAST, loops=_STUTTER,
     functions_under_contract=_L1_FUNCS + ["Rc::{new,clone,from_raw,into_raw,finalize,drop,downgrade,snapshot,as_ref,deref}", "Snapshot::counted", "Weak::upgrade",
@@ -197,11 +197,12 @@ PROPS["C06"] = dict(
 )
 PROPS["C07"] = dict(
     title="destroying long or deep structures never overflows the stack", level="proof",
-    modules=["utils_state_h.rs", "utils_dispose_h.rs", "internal_cut_h.rs"], contract_groups=["state", "modular"],
-    kani=dict(quick=_h("utils_dispose_h.rs", _DISP_CORE + ["c06_chain_induction_step"])),
+    modules=["utils_state_h.rs", "utils_dispose_h.rs", "internal_cut_h.rs", "epoch_h.rs", "internal_h.rs", "list_h.rs", "queue_h.rs"], contract_groups=["state", "modular", "epoch", "expired"],
+    kani=dict(quick=_h("utils_dispose_h.rs", _DISP_CORE + ["c06_chain_induction_step"]) + _h("internal_h.rs", ["c15_defer", "c15_flush", "c16_unpin"])),
     kani_flags=_FAST, loops=_STUTTER,
-    functions_under_contract=["dispose_general_node", "dispose"],
-    expected_obligations=["C07.depth.cap_redefers_exactly_once", "C07.depth.cap_touches_nothing_else", "C07.depth.child_at_1024_not_destructed_here", "C06.cascade.zero_child_handled_in_same_pass_with_depth_plus_one", "C06.dispose.enters_cascade_at_depth_zero"],
+    functions_under_contract=["dispose_general_node", "dispose", "Local::{defer,flush,unpin} (deferred functions run only from the outermost unpin, never on top of a deferring frame)"],
+    expected_obligations=["C07.depth.cap_redefers_exactly_once", "C07.depth.cap_touches_nothing_else", "C07.depth.child_at_1024_not_destructed_here", "C06.cascade.zero_child_handled_in_same_pass_with_depth_plus_one", "C06.dispose.enters_cascade_at_depth_zero", "C07.depth.recursive_call_passes_depth_plus_one",
+                          "C07.defer.never_collects_reentrantly", "C07.flush.never_collects_reentrantly", "C15.unpin.runs_scheduled_collection_from_outermost_unpin"],
     trusted_base=[A_TOOLS, A_PARAM, "the translation '1025 frames of dispose_general_node fit every legal stack size' depends on frame size and user Drop/pop_edges code and is NOT decidable by contracts"],
     assumptions=["recursion depth <= 1025 frames is proved (every call at depth >= 1024 returns without recursing, for every depth; the call at 1023 passes 1024; dispose enters at 0; the deferred closure is stored, not run); bytes of stack per frame are not"],
 )
@@ -346,12 +347,13 @@ PROPS["C16"] = dict(
 PROPS["C17"] = dict(
     title="internal garbage queue: sequential FIFO / predicate contract", level="other",
     modules=["queue_h.rs"], contract_groups=[],
-    kani=dict(quick=_h("queue_h.rs", ["c17_queue_sequential"])), kani_flags=_FAST,
+    kani=dict(quick=_h("queue_h.rs", ["c17_queue_sequential", "c17_pop_if_under_interference"])), kani_flags=_FAST,
     loops="CAS-retry loops of push/try_pop/try_pop_if never retry sequentially; unwound 6 with unwinding assertions on",
-    bounded=["queue length <= 3, then two pops of either kind and one more push; single thread"],
+    bounded=["queue length <= 3, then two pops of either kind and one more push; single thread", "one environment step (another consumer pops the head) at the predicate's evaluation, queue of 2"],
     functions_under_contract=["Queue::{new,push,push_internal,try_pop,pop_internal,try_pop_if,pop_if_internal}"],
     expected_obligations=["C17.push.appends_at_the_back", "C17.pop.returns_oldest_element_fifo", "C17.pop.removes_exactly_the_head", "C17.pop_if.head_failing_predicate_stays", "C17.pop_if.predicate_held_for_that_very_element",
-                          "C17.pop.retires_old_sentinel_exactly_once", "C17.pop.empty_queue_gives_none", "C17.pop.no_node_retired_twice"],
+                          "C17.pop.retires_old_sentinel_exactly_once", "C17.pop.empty_queue_gives_none", "C17.pop.no_node_retired_twice",
+                          "C17.pop_if.removed_element_is_one_the_predicate_held_for", "C17.pop_if.after_interference_only_the_new_head"],
     trusted_base=[A_TOOLS, "linearizability under concurrency (Michael-Scott; Doherty et al.) is NOT decided: only the sequential contract every linearization must satisfy, on the real code, for bounded lengths"],
     assumptions=["bounded and sequential; labelled bounded, not counted as a proof of the property"],
     explanation="BOUNDED sequential contract only: abstract view = payloads reachable from head.next; push appends, try_pop removes the head FIFO, try_pop_if removes the head only if the predicate held for that very element and evaluates it on it, "
@@ -360,12 +362,12 @@ PROPS["C17"] = dict(
 PROPS["C18"] = dict(
     title="epoch advancement never overlooks a registered participant: sequential traversal contract", level="other",
     modules=_L3M, contract_groups=_L3G,
-    kani=dict(quick=_h("list_h.rs", ["c18_iter_sequential", "c18_insert_delete"]) + _h(_INT, ["c13_try_advance", "c15_finalize"])), kani_flags=_FAST,
+    kani=dict(quick=_h("list_h.rs", ["c18_iter_sequential", "c18_insert_delete"]) + _h(_INT, ["c13_try_advance", "c15_finalize", "c18_try_advance_stalled"])), kani_flags=_FAST,
     loops="Iter::next's unlink loop and List::insert's CAS loop: unwound with unwinding assertions on (complete for <= 3 entries)",
     bounded=["registry of <= 3 entries with symbolic delete marks; single thread"],
     functions_under_contract=["List::{new,insert,iter}", "Entry::delete", "Iter::next", "Global::try_advance (visits every participant)", "Local::finalize (marks its entry)"],
     expected_obligations=["C18.iter.visits_every_registered_unremoved_entry_once", "C18.iter.removed_entries_unlinked_and_finalized_exactly_once", "C18.iter.list_keeps_exactly_the_unremoved_entries",
-                          "C18.insert.new_entry_is_reachable_from_head", "C18.insert.keeps_every_existing_entry_reachable", "C18.delete.sets_only_the_mark_of_this_entry", "C18.finalize.marks_registry_entry_deleted",
+                          "C18.insert.new_entry_is_reachable_from_head", "C18.insert.keeps_every_existing_entry_reachable", "C18.delete.sets_only_the_mark_of_this_entry", "C18.finalize.marks_registry_entry_deleted", "C18.advance.stalled_traversal_does_not_advance",
                           "C13.advance.refuses_while_a_pinned_participant_lags"],
     trusted_base=[A_TOOLS, "concurrent insert/delete during a traversal (the schedule-quantified half, incl. the Stalled path) is NOT decided"],
     assumptions=["bounded and sequential; labelled bounded, not counted as a proof of the property"],
@@ -377,8 +379,8 @@ PROPS["C18"] = dict(
 # "every size" - reported separately in the evidence and never counted as proved-without-bound.
 BOUNDED_HARNESSES = {
     "c13_collect": "global queue of <= 2 sealed bags", "c13_try_advance": "registry of 2 participants", "c14_try_advance_monotone": "registry of 2 participants",
-    "c15_bag": "bag capacity 3", "c15_defer": "bag capacity 2", "c15_flush": "bag capacity 2", "c15_finalize": "bag capacity 2", "c13_push_bag": "bag of <= 2 functions",
-    "c17_queue_sequential": "queue length <= 3, sequential", "c18_iter_sequential": "registry of <= 3 entries, sequential", "c18_insert_delete": "registry of <= 3 entries, sequential",
+    "c18_try_advance_stalled": "registry of 3 participants, one environment step", "c15_bag": "bag capacity 3", "c15_defer": "bag capacity 2", "c15_flush": "bag capacity 2", "c15_finalize": "bag capacity 2", "c13_push_bag": "bag of <= 2 functions",
+    "c17_queue_sequential": "queue length <= 3, sequential", "c17_pop_if_under_interference": "queue of 2, one environment step", "c18_iter_sequential": "registry of <= 3 entries, sequential", "c18_insert_delete": "registry of <= 3 entries, sequential",
     "c10_new_many_0": "N = 0", "c10_new_many_1": "N = 1", "c10_new_many_2": "N = 2", "c10_new_many_3": "N = 3", "c10_new_many_8": "N = 8",
     "c10_weak_many_0": "N = 0", "c10_weak_many_1": "N = 1", "c10_weak_many_3": "N = 3", "c10_weak_many_8": "N = 8",
 }
